@@ -185,6 +185,12 @@ pub struct TablePlan {
     /// channels and repetition counts) and by their exit status.
     #[serde(default)]
     pub ref_prefix: Option<(String, String)>,
+    /// blow-up family: `[false &] ((a0 <=> b0) & .. & (a(n-1) <=> b(n-1)))` under an ordering file
+    /// that lists all a's before all b's, so that one evaluation interns thousands of nodes
+    /// (environment size is the simulated dimension; with the `false &` prefix the result is a
+    /// constant). Judged by T7/T8 and exit status only.
+    #[serde(default)]
+    pub blowup: Option<(usize, bool)>,
 }
 
 const FILTER_SPELLINGS: [&[&str]; 3] = [
@@ -318,8 +324,21 @@ pub fn gen_table_plan(rng: &mut Prng, property: &str, thorough: bool) -> TablePl
         (_, Some(w)) => w.names(),
         _ => vec![],
     };
+    let blowup = if !c11 && wide.is_none() && rng.chance(1, 30) { Some((rng.range(9, 13), rng.chance(2, 3))) } else { None };
     let want_ordering = if c11 { true } else { wide.is_none() && rng.chance(1, 3) };
-    let ordering = if want_ordering { Some(gen_ordering(rng, &text_names)) } else { None };
+    let mut ordering = if want_ordering { Some(gen_ordering(rng, &text_names)) } else { None };
+    if let Some((n, _)) = blowup {
+        let toks: Vec<OrdToken> = (0..n)
+            .map(|i| format!("a{i}"))
+            .chain((0..n).map(|i| format!("b{i}")))
+            .map(|t| OrdToken { text: t, is_name: true })
+            .collect();
+        ordering = Some(OrderingSpec {
+            kind: "blowup".into(),
+            tokens: toks,
+            sep: "\n".into(),
+        });
+    }
     let filter = rng.below(3) as u8;
     let mut variants = Vec::new();
     if !c11 {
@@ -331,6 +350,9 @@ pub fn gen_table_plan(rng: &mut Prng, property: &str, thorough: bool) -> TablePl
                 variants.push(Variant::Repeat(if rng.chance(1, 10) { rng.range(5, 12) } else { rng.range(1, 4) }));
             }
         }
+    }
+    if blowup.is_some() {
+        variants.push(Variant::Repeat(rng.range(2, 3)));
     }
     let t = c11 || rng.chance(4, 5);
     let v = rng.chance(1, 3);
@@ -399,6 +421,7 @@ pub fn gen_table_plan(rng: &mut Prng, property: &str, thorough: bool) -> TablePl
         api_ids,
         straddle,
         ref_prefix,
+        blowup,
     }
 }
 
@@ -555,6 +578,17 @@ fn model_of(p: &TablePlan) -> Result<Model, String> {
         let names = w.names();
         return Ok(Model {
             text: w.text(),
+            free: names.clone(),
+            text_names: names,
+            func: None,
+        });
+    }
+    if let Some((n, with_false)) = p.blowup {
+        let chain = (0..n).map(|i| format!("(a{i} <=> b{i})")).collect::<Vec<_>>().join(" & ");
+        let text = if with_false { format!("false & ( {chain} )") } else { chain };
+        let names: Vec<String> = (0..n).flat_map(|i| [format!("a{i}"), format!("b{i}")]).collect();
+        return Ok(Model {
+            text,
             free: names.clone(),
             text_names: names,
             func: None,
@@ -770,7 +804,11 @@ pub fn execute_table(p: &TablePlan) -> RunOutcome {
                         vs.push(viol(pr, or, "export-ordering", format!("-r printed {:?}, expected {:?}", parsed.ordering, want)));
                     }
                 }
-                if p.ref_prefix.is_some() {
+                if p.blowup.is_some() {
+                    bump(&mut stats, "probe.blowup_family");
+                    bump(&mut stats, "fault.table-growth");
+                    out.nontrivial = true;
+                } else if p.ref_prefix.is_some() {
                     bump(&mut stats, "probe.reference_family");
                     out.nontrivial = true;
                 } else if let Some(w) = &p.wide {
@@ -1183,7 +1221,20 @@ pub struct RobustPlan {
 }
 
 pub fn gen_robust_plan(rng: &mut Prng) -> RobustPlan {
-    let formula = gen_stored_formula(rng);
+    let mut formula = gen_stored_formula(rng);
+    let blow = rng.chance(1, 40);
+    if blow {
+        // environment-size dimension: an evaluation that interns thousands of nodes and ends in a constant
+        let n = rng.range(9, 13);
+        let chain = (0..n).map(|i| format!("(a{i} <=> b{i})")).collect::<Vec<_>>().join(" & ");
+        let head: String = (0..n).map(|i| format!("a{i} ")).collect();
+        formula = StoredInput {
+            base_kind: "blowup".into(),
+            // the leading comment-free list fixes the variable order: all a's first
+            base: format!("{} ( [{}] >= 0 & ( {chain} ) )", if rng.coin() { "false &" } else { "true &" }, head.trim().replace(' ', ", ")).into_bytes(),
+            faults: vec![],
+        };
+    }
     let ordering = if rng.chance(1, 3) {
         let text = String::from_utf8_lossy(&formula.bytes().0).to_string();
         let mut names: Vec<String> = Vec::new();
@@ -1224,7 +1275,7 @@ pub fn gen_robust_plan(rng: &mut Prng) -> RobustPlan {
         v: rng.chance(1, 3),
         m: rng.chance(1, 4),
         r: rng.chance(1, 4),
-        b: if rng.chance(1, 6) { Some(rng.range(0, 3)) } else { None },
+        b: if blow { Some(rng.range(2, 3)) } else if rng.chance(1, 6) { Some(rng.range(0, 3)) } else { None },
         filter: if rng.coin() { Some(spell(rng)) } else { None },
         retain: if rng.chance(1, 3) { Some(spell(rng)) } else { None },
         dot: rng.chance(1, 3),
@@ -1499,6 +1550,9 @@ pub struct ExportPlan {
     /// exported file with the table the same invocation prints
     #[serde(default)]
     pub retain: Option<String>,
+    /// `fs-stale-output`: the -d and -p files already exist with this many lines of older content
+    #[serde(default)]
+    pub stale: usize,
 }
 
 pub fn gen_export_plan(rng: &mut Prng) -> ExportPlan {
@@ -1519,6 +1573,7 @@ pub fn gen_export_plan(rng: &mut Prng) -> ExportPlan {
         m: rng.chance(1, 5),
         ordering: if rng.chance(1, 4) { Some(gen_ordering(rng, &names)) } else { None },
         retain: if rng.chance(1, 5) { Some(rng.pick(&["t", "true", "T", "f", "false", "0", "1"]).to_string()) } else { None },
+        stale: if rng.chance(1, 3) { rng.range(1, 400) } else { 0 },
     }
 }
 
@@ -1542,6 +1597,16 @@ pub fn execute_export(p: &ExportPlan) -> RunOutcome {
     let dir = run_dir("exp");
     let dot_path = dir.join("out.dot");
     let tree_path = dir.join("tree.dot");
+    if p.stale > 0 {
+        // an earlier, longer export under the same names
+        let old: String = std::iter::once("digraph bdd_graph {\n".to_string())
+            .chain((0..p.stale).map(|i| format!("    n_0xdead{i:04x}[label=\"old{i}\"];\n")))
+            .chain(std::iter::once("}\n".to_string()))
+            .collect();
+        std::fs::write(&dot_path, &old).expect("tmpfs write");
+        std::fs::write(&tree_path, &old).expect("tmpfs write");
+        bump(&mut stats, "fault.fs-stale-output");
+    }
     let mut args = vec![
         "-d".to_string(),
         dot_path.to_string_lossy().to_string(),
